@@ -215,9 +215,10 @@ def tie_cases(ctx, tie, gen_deep):
     out = []
     if not tie.changed():
         return out
-    lays = {l for k in tie.changed() for l in KERNEL_LAYS[k]}
+    ch = [k for k in tie.changed() if k in KERNEL_LAYS] or (list(KERNEL_LAYS) if tie.changed() else [])   # (context changed: all)
+    lays = {l for k in ch for l in KERNEL_LAYS[k]}
     out += [c for c in gen_deep() if c[1] in lays]
-    for k in tie.changed():
+    for k in [k for k in tie.changed() if k in KERNEL_LAYS]:
         for (w, sc, ar), new, ref in tie.counterexamples(k):
             if k == "strided_index":
                 out.append(("idx", "strided", ar["m_sizes"], ar["c"], CT_OF_WIDTH[w]))
@@ -233,7 +234,7 @@ def tie_cases(ctx, tie, gen_deep):
 
 def run(ctx):
     cases = gen(ctx)
-    tie = T.Tie(ctx, list(KERNEL_LAYS))
+    tie = T.Tie(ctx, list(KERNEL_LAYS) + ["context"])
 
     class Deep:
         quick, seed = False, ctx.seed
